@@ -378,7 +378,7 @@ theorem Domain.new?_wf (m : Nat) (d : Domain) (h : Domain.new? m = some d) :
     · dsimp only
       rw [toF_finv]
 
-theorem nextPow2'_go_ge (n : Nat) : ∀ (f j : Nat), n ≤ 2 ^ (j + f) → n ≤ nextPow2'.go n f (2 ^ j) := by
+theorem nextPow2'_go_ge_of_le (n : Nat) : ∀ (f j : Nat), n ≤ 2 ^ (j + f) → n ≤ nextPow2'.go n f (2 ^ j) := by
   intro f
   induction f with
   | zero => intro j h; exact h
@@ -390,7 +390,7 @@ theorem nextPow2'_go_ge (n : Nat) : ∀ (f j : Nat), n ≤ 2 ^ (j + f) → n ≤
     · have := ih (j + 1) (by rw [show j + 1 + f = j + (f + 1) by omega]; exact h)
       rwa [Nat.pow_succ, Nat.mul_comm] at this
 
-theorem nextPow2'_go_small (n : Nat) : ∀ (f j : Nat), 2 ^ (j + f) < n →
+theorem nextPow2'_go_of_lt (n : Nat) : ∀ (f j : Nat), 2 ^ (j + f) < n →
     nextPow2'.go n f (2 ^ j) = 2 ^ (j + f) := by
   intro f
   induction f with
@@ -409,7 +409,7 @@ theorem nextPow2'_go_small (n : Nat) : ∀ (f j : Nat), 2 ^ (j + f) < n →
 /-- the domain is at least as large as requested -/
 theorem Domain.new?_size_ge (m : Nat) (d : Domain) (h : Domain.new? m = some d) : m ≤ d.size := by
   by_cases hm : m ≤ 2 ^ 64
-  · have hge : m ≤ nextPow2' m := nextPow2'_go_ge m 64 0 (by simpa using hm)
+  · have hge : m ≤ nextPow2' m := nextPow2'_go_ge_of_le m 64 0 (by simpa using hm)
     unfold Domain.new? at h
     simp only at h
     split at h
@@ -417,7 +417,7 @@ theorem Domain.new?_size_ge (m : Nat) (d : Domain) (h : Domain.new? m = some d) 
     · injection h with h
       subst h
       exact hge
-  · have hp : nextPow2' m = 2 ^ 64 := nextPow2'_go_small m 64 0 (by simpa using hm)
+  · have hp : nextPow2' m = 2 ^ 64 := nextPow2'_go_of_lt m 64 0 (by simpa using hm)
     unfold Domain.new? at h
     simp only [hp, log2_pow 64 (Nat.le_refl _)] at h
     simp [TWO_ADACITY] at h
